@@ -202,6 +202,18 @@ CHECKS = {
         note="Hostile bytes arrive in whole writes; a partial message legitimately keeps a single-threaded multiplex server waiting until the peer disconnects or COMMTIMEOUT fires.",
         design_ref="DESIGN.md section 3 C05",
     ),
+    "C13": dict(
+        engine="N+T",
+        technique="exhaustive enumeration of connection endings x tracked-resource shapes x server types on the real request loop, with bounded exhaustive interleaving against a second open connection",
+        text="Connection A (session-mode class, resources tracked in methods or in the constructor, some untracked again) is ended in 17 ways - orderly release, SecurityError, "
+             "malformed request, close before or right after the handshake, abrupt close and reset at byte offsets of a request, server-side timeout on a partial message and "
+             "on an idle peer - on the multiplex and the thread-pool server, with and without a second connection B that holds its own resource and makes a call after A ended; "
+             "representative configurations under every schedule with one preemption (including line granularity inside the worker hand-off). Oracle at quiescence: the "
+             "disconnect hook ran exactly once per handshaken connection, every tracked resource was closed exactly once (and by the time A's disconnect handling has run, "
+             "while B is still open), untracked ones never, session instances are dead, server-side sockets closed, worker/selector slot released, B undisturbed.",
+        note="Offsets at field boundaries; an idle peer on a multiplex server is never read and hence not timed out (by design).",
+        design_ref="DESIGN.md section 3 C13",
+    ),
 }
 
 NOT_YET = {}
